@@ -47,13 +47,26 @@ def rule_persist_first(ctx):
     begin, commit = calls_to(f, T + "begin"), calls_to(f, T + "commit")
     ins = calls_to(f, "p2panda_store::operations::traits::OperationStore::insert_operation")
     ctx.floor("C15.1", "begin / insert_operation / commit in the forge", min(len(begin), len(commit), len(ins)), 1)
+    assoc = calls_to(f, "p2panda_store::topics::traits::TopicStore::associate")
+    ctx.floor("C15.1", "topic association in the forge", len(assoc), 1)
+    if assoc and ins and commit:
+        a, i = assoc[0], ins[0]
+        first, second = (a, i) if f.dominates(a.bb, i.bb) else (i, a)
+        split = [c for c in commit if c.bb in f.reachable(first.done_bb) and second.bb in f.reachable(c.done_bb)]
+        ctx.ob("C15.1", "operation insert and topic association are one transaction",
+               f.dominates(first.done_bb, second.bb) and not split,
+               "create_operation commits between insert_operation and TopicStore::associate: after a crash between "
+               "the two commits the operation is stored but resolve(topic) does not know its log, so it is never "
+               "replayed", site=second.loc(), key="C15.1:insert-associate-atomic")
     if begin and commit and ins:
-        ce = ok_edge(f, commit[0])
+        ce = ok_edge(f, commit[-1])
         for kind, bb, rv in exit_kinds(f):
             if kind == "ok":
                 ctx.ob("C15.1", "forge returns Ok only after insert and a successful commit",
-                       ce is not None and edge_dominates(f, ce, bb) and f.dominates(ins[0].done_bb, commit[0].bb)
-                       and f.dominates(begin[0].done_bb, ins[0].bb),
+                       ce is not None and edge_dominates(f, ce, bb) and
+                       any(f.dominates(ins[0].done_bb, c.bb) for c in commit)
+                       and f.dominates(begin[0].done_bb, ins[0].bb) and
+                       all(edge_dominates(f, ok_edge(f, c), bb) for c in commit if ok_edge(f, c)),
                        "create_operation can return Ok without the operation being committed", site=f.loc(bb))
 
 
